@@ -12,7 +12,7 @@ m = json.load(open(mp))
 runs = m.setdefault("check_runs", [])
 runs.append({"check": prop, "cmd": "VERIF_REPO=<worktree with patch.diff applied> ./check %s --tier quick" % prop,
              "exit": int(rc), "violation_lines": len(viol), "with_failing_input": sum(1 for v in viol if "no-failing-input-found" not in v),
-             "what": what[:3], "verif_commit": os.popen("git -C /verif rev-parse --short HEAD").read().strip(), "label": label,
+             "what": what[:3], "verif_commit": os.popen("git -C %s rev-parse --short HEAD" % os.environ.get("VERIF_HOME", "/verif")).read().strip(), "label": label,
              "at": time.strftime("%Y-%m-%d %H:%M")})
 m["detected_by"] = sorted({r["check"] for r in runs if r["exit"] == 1 and r["violation_lines"] > 0} | set(m.get("detected_by", [])))
 json.dump(m, open(mp, "w"), indent=1)
